@@ -4,7 +4,7 @@ Import ListNotations.
 Open Scope string_scope.
 
 Definition show_wp (p : wpath) : string := show_N (wp_id p) ++ (if wp_rec p then ":r" else ":n").
-Definition show_kind (k : kind) : string := match k with KNative => "native" | KPoll => "poll" end.
+Definition show_kind (k : kind) : string := match k with KNative => "native" | KPoll => "poll" | KPoll2 => "poll2" end.
 Definition show_call (c : call) : string :=
   match c with
   | CCreate k => "create(" ++ show_kind k ++ ")"
@@ -22,7 +22,7 @@ Fixpoint run_changes (fw fu : list N) (c : cfg) (w : fsw) (chs : list (option (l
   | [] => (c, w)
   | (ps, k) :: r =>
       let c' := mkCfg (match ps with Some l => map mkp l | None => c_paths c end)
-                      (match k with Some 1%N => KPoll | Some _ => KNative | None => c_kind c end) in
+                      (match k with Some 1%N => KPoll | Some 2%N => KPoll2 | Some _ => KNative | None => c_kind c end) in
       let w' := pass (fun i => existsb (N.eqb i) fw) (fun i => existsb (N.eqb i) fu) true (c_paths c') (c_kind c') (c_paths c') w in
       run_changes fw fu c' w' r
   end.
